@@ -15,6 +15,8 @@ mod meta;
 #[cfg(feature = "b1")]
 mod faults;
 mod xp;
+#[cfg(o2o_verif)]
+mod orders;
 #[cfg(feature = "b1")]
 mod ir;
 #[cfg(feature = "b1")]
@@ -56,6 +58,13 @@ fn main() {
                 usage();
             }
             std::process::exit(props::run_replay(&args[2]));
+        }
+        #[cfg(o2o_verif)]
+        "c19-orders" => {
+            if args.len() < 4 {
+                usage();
+            }
+            std::process::exit(orders::run(&args[2], &args[3]));
         }
         "expand-file" => {
             if args.len() < 4 {
